@@ -30,31 +30,52 @@ def run(ctx):
 
     r2 = rep.rule('C15.2-back-off-shape', 'R-CONST', 'nextretry: n = 0 if birth > recent else squareroot(recent - birth); n += chanskip[c]; return birth + n*n; chanskip = {10, 20}, all >= 1')
     nr = prog.fn('nextretry', 'qmail-send.c')
-    rets = [x for x in nr.all_x() if x.k == 'ret']
-    shape = False
-    for x in rets:
-        s = x.args[0].sx()
-        # ('bin','+', birth, ('bin','*', n, n))
-        if s[0] == 'bin' and s[1] == '+':
-            a, b = s[2], s[3]
-            for u, v in ((a, b), (b, a)):
-                if u == ('v', 'P:birth') and v[0] == 'bin' and v[1] == '*' and v[2] == v[3] and v[2][0] == 'v':
-                    shape = True
-    r2.check(shape, 'returns-birth+n*n', nr.unit + ':nextretry', 'return expression is not birth + n*n')
-    sq = nr.calls('squareroot')
-    oksq = False
-    if sq:
-        a = sq[0].args[0].strip()
-        oksq = a.k == 'bin' and a.op == '-' and a.args[0].path() == 'G:recent' and a.args[1].path() == 'P:birth'
-        g = nr.guards(sq[0]) or []
-        oksq = oksq and any(c.strip().k == 'bin' and c.strip().op == '>' and c.strip().args[0].path() == 'P:birth' and c.strip().args[1].path() == 'G:recent' and t is False for c, t in g)
-    r2.check(oksq, 'age=recent-birth-only-when-birth<=recent', nr.unit + ':nextretry', 'squareroot(recent - birth) under !(birth > recent)')
-    add = [x for x in nr.all_x() if x.k == 'asg' and x.op == '+=' and 'chanskip' in x.args[1].src()]
-    r2.check(len(add) == 1 and x is not None and not (nr.guards(add[0]) or []), 'skip-added-unconditionally', nr.unit + ':nextretry', 'n += chanskip[c] must be unconditional')
+    cs0 = db.unit('qmail-send.c').globals.get('chanskip')
+    skips = [e.get('v') for e in cs0['init']['v']] if cs0 and cs0.get('init', {}).get('k') == 'list' else None
+    if not skips or len(skips) != 2:
+        raise AnalysisBroken('chanskip[] initialiser not found')
+    from qv.esp import Outcome
+
+    class NR(QHooks):
+        tracked = frozenset(['G:recent', 'G:chanskip'])
+
+        def precise_arith(self, path):
+            return True
+
+        def __init__(self):
+            self.out = None
+            self.sq = []
+
+        def prim_squareroot(self, E, x, args):
+            v = args[0]
+            a = next(iter(v)) if v is not TOP and len(v) == 1 else None
+            self.sq.append(a)
+            return [Outcome(ret=fs(7 if a is not None else 0))]      # squareroot is abstract: "some value" (7) of the age
+
+        def on_return(self, E, fn, val):
+            self.out = next(iter(val)) if val is not TOP and len(val) == 1 else None
+    bad = []
+    ages = []
+    for birth, recent, c in ((100, 200, 0), (100, 200, 1), (300, 200, 0), (300, 200, 1), (200, 200, 1)):
+        h = NR()
+        e = Engine(db, prog, h)
+        e.run(nr, {'nextretry::P:birth': fs(birth), 'nextretry::P:c': fs(c), 'G:recent': fs(recent), 'G:chanskip[0]': fs(skips[0]), 'G:chanskip[1]': fs(skips[1])})
+        rep.count_states(e.states, e.transitions)
+        n = (7 if birth <= recent else 0) + skips[c]
+        want = birth + n * n
+        if h.out != want:
+            bad.append(((birth, recent, c), h.out, want))
+        if birth <= recent:
+            ages.append((h.sq, recent - birth))
+        elif h.sq:
+            bad.append(((birth, recent, c), 'squareroot called for a negative age', h.sq))
+    r2.check(not bad, 'nextretry=birth+(sqrt(age)+skip)^2,age-0-when-born-in-the-future', nr.unit + ':nextretry',
+             'with squareroot abstracted to 7: (birth, recent, channel) -> got, expected: %s' % bad[:3])
+    r2.check(all(sq == [age] for sq, age in ages), 'age=recent-birth', nr.unit + ':nextretry', 'squareroot arguments %s' % ages)
     cs = db.unit('qmail-send.c').globals.get('chanskip')
     vals = [e.get('v') for e in cs['init']['v']] if cs and cs.get('init', {}).get('k') == 'list' else None
     r2.check(vals == [10, 20], 'chanskip=={10,20}', 'qmail-send.c', 'chanskip is %s (documented: 10 local, 20 remote; 0 would put the retry time in the past)' % vals)
-    r2.expect_min(4)
+    r2.expect_min(3)
 
     r3 = rep.rule('C15.3-expiry', 'R-GUARD', 'flagdying = recent > birth + lifetime (evaluated at the boundary); a dying Z report becomes D with its bounce (C03 rule 1)')
     fd = [x for x in pd.all_x() if x.k == 'asg' and (x.args[0].path() or '').endswith('.flagdying')]
@@ -119,21 +140,25 @@ def run(ctx):
     r5 = rep.rule('C15.5-heap-index-arithmetic', 'R-GUARD', 'prioq.c: parent of j is (j-1)/2; delmin stops without comparing only when node i has no live child (evaluated for i < 8, n < 18) and never indexes beyond the last element')
     pq = db.fn('prioq.c', 'prioq_delmin')
     E = Env(eng, pq, {}, {}, None)
-    jasg = [x for x in pq.all_x() if x.k == 'asg' and x.op == '=' and (x.args[0].var or '').startswith('L:j') and 'i' in x.args[1].src()]
-    if not jasg:
-        raise AnalysisBroken('prioq_delmin: child index computation not found')
-    jx = jasg[0]
-    # first branch condition after it that mentions j and n
-    brk = None
-    for bid in pq.order():
-        b = pq.blocks[bid]
-        if b.cond is not None and b.term.get('k') == 'if':
-            v = {r.split('#')[0] for r in b.cond.refs()}
-            if v == {'L:j', 'L:n'} and pq.dominates(jx, b.cond):
-                brk = b
-                break
-    if brk is None:
-        raise AnalysisBroken('prioq_delmin: loop exit test on (j, n) not found')
+    # the child index: a local assigned from arithmetic over one other local and compared with a third in an if
+    jx = brk = None
+    for x in pq.all_x():
+        if not (x.k == 'asg' and x.op == '=' and x.args[0].var and x.args[0].var[:2] == 'L:'):
+            continue
+        refs = {r for r in x.args[1].refs() if r[:2] == 'L:'}
+        if len(refs) != 1 or x.args[1].strip().k != 'bin' or x.args[0].var in refs:
+            continue
+        for bid in pq.order():
+            b = pq.blocks[bid]
+            if b.cond is not None and b.term.get('k') == 'if':
+                cr = {r for r in b.cond.refs() if r[:2] == 'L:'}
+                if x.args[0].var in cr and len(cr) == 2 and not (cr & refs) and pq.dominates(x, b.cond) and b.cond.strip().k == 'bin':
+                    jx, brk = x, b
+                    break
+        if jx is not None:
+            break
+    if jx is None:
+        raise AnalysisBroken('prioq_delmin: child index computation / loop exit test not found')
     # which successor leaves the loop?  the one from which jx's block is not reachable
     jb = pq.pos[jx.id][0]
     leave_true = not pq.can_reach_from(brk.succs[0], jb) if hasattr(pq, 'can_reach_from') else None
@@ -150,9 +175,9 @@ def run(ctx):
             work.extend(pq.blocks[b].succs)
         return False
     leave_true = not reach_from(brk.succs[0], jb)
-    ipath = [eng.qualify(pq, r) for r in jx.args[1].refs() if r.startswith('L:i')][0]
+    ipath = [eng.qualify(pq, r) for r in jx.args[1].refs() if r[:2] == 'L:'][0]
     jpath = eng.qualify(pq, jx.args[0].var)
-    npath = [eng.qualify(pq, r) for r in brk.cond.refs() if r.startswith('L:n')][0]
+    npath = [eng.qualify(pq, r) for r in brk.cond.refs() if r[:2] == 'L:' and r != jx.args[0].var][0]
     bad = None
     oob = None
     for i in range(0, 8):
@@ -170,10 +195,11 @@ def run(ctx):
     r5.check(oob is None, 'delmin-never-reads-beyond-the-last-element', brk.cond.where, 'i=%s n=%s: continues with j=%s > n' % (oob if oob else (None, None, None)))
     pi = db.fn('prioq.c', 'prioq_insert')
     Ei = Env(eng, pi, {}, {}, None)
-    iasg = [x for x in pi.all_x() if x.k == 'asg' and x.op == '=' and (x.args[0].var or '').startswith('L:i') and 'j' in x.args[1].src()]
+    iasg = [x for x in pi.all_x() if x.k == 'asg' and x.op == '=' and x.args[0].var and x.args[0].var[:2] == 'L:' and
+            len({r for r in x.args[1].refs() if r[:2] == 'L:'}) == 1 and any(y.k == 'bin' and y.op in ('/', '>>') for y in x.args[1].walk())]
     okp = bool(iasg)
     if iasg:
-        jp = [eng.qualify(pi, r) for r in iasg[0].args[1].refs() if r.startswith('L:j')][0]
+        jp = [eng.qualify(pi, r) for r in iasg[0].args[1].refs() if r[:2] == 'L:'][0]
         okp = all(eng.concrete(Ei, iasg[0].args[1], {jp: j}) == (j - 1) // 2 for j in range(1, 40))
     r5.check(okp, 'insert-parent-index=(j-1)/2', pi.unit + ':prioq_insert', 'parent index computation')
     r5.expect_min(3)
